@@ -817,11 +817,14 @@ def prove_equal_terms(a, b):
     if a.c is not None and b.c is not None:
         return a.c == b.c
     lhs, rhs = _cross(a, b)
+    if lhs.get_id() == rhs.get_id():
+        return True
     rel = relevant([lhs, rhs], with_defs=False)
     if check(rel + [lhs != rhs], timeout=10000) == 'unsat':
         return True
-    rel = relevant([lhs, rhs], with_defs=True)
-    return check(rel + [lhs != rhs], timeout=10000) == 'unsat'
+    pc = C.pc()      # equality on this path suffices (atoms are per path)
+    rel = relevant(pc + [lhs, rhs], with_defs=True)
+    return check(pc + rel + [lhs != rhs], timeout=10000) == 'unsat'
 
 
 def _cross(a, b):
@@ -877,8 +880,10 @@ def make_atom(kind, arg):
 
 
 def _link(a, arg):
-    """a definition-less atom still has to pull its argument's atoms into the cone"""
-    return z3.BoolVal(True)
+    """a definition-less atom still has to pull its argument's variables and atoms into the cone of influence
+    (so that axioms about the uninterpreted function, which mention the argument, are picked up)"""
+    t = arg.t
+    return z3.And(a == a, t == t)
 
 
 def fresh_real(prefix, sh=None):
